@@ -19,7 +19,7 @@ pub fn content_scenario() -> (Scenario, Vec<(String, Value)>) {
   let mut steps = Vec::new();
   let n_base = 24;
   for i in 0..n_base {
-    steps.push(Step::Block(BlockSpec { id: format!("hb{i}"), txs: vec![], cb: vec![OutSpec { v: SUBSIDY_UNITS, t: "tr".into(), s: (i % 4) as u32 }] }));
+    steps.push(Step::Block(BlockSpec { id: format!("hb{i}"), txs: vec![], cb: vec![OutSpec { v: SUBSIDY_UNITS, t: "tr".into(), s: (i % 4) as u32 }], ..Default::default() }));
   }
   // (label, env, abstract class)
   let mut classes: Vec<(EnvSpec, Value)> = Vec::new();
@@ -39,7 +39,7 @@ pub fn content_scenario() -> (Scenario, Vec<(String, Value)>) {
     .enumerate()
     .map(|(i, (e, _))| TxSpec { label: format!("ht{i}"), ins: vec![format!("chb{i}:0")], outs: vec![OutSpec { v: SUBSIDY_UNITS, t: "tr".into(), s: 1 }], envs: vec![e.clone()], ..Default::default() })
     .collect();
-  steps.push(Step::Block(BlockSpec { id: "hx0".into(), txs: first, cb: vec![OutSpec { v: SUBSIDY_UNITS, t: "tr".into(), s: 0 }] }));
+  steps.push(Step::Block(BlockSpec { id: "hx0".into(), txs: first, cb: vec![OutSpec { v: SUBSIDY_UNITS, t: "tr".into(), s: 0 }], ..Default::default() }));
   // delegating inscriptions (their targets exist now)
   let mut second: Vec<(EnvSpec, Value)> = Vec::new();
   second.push((EnvSpec { nobody: true, delegate: Some("A".into()), ..env("B") }, cls("valid", "none", false, "plain", false)));
@@ -54,7 +54,7 @@ pub fn content_scenario() -> (Scenario, Vec<(String, Value)>) {
     .enumerate()
     .map(|(i, (e, _))| TxSpec { label: format!("hu{i}"), ins: vec![format!("chb{}:0", base + i)], outs: vec![OutSpec { v: SUBSIDY_UNITS, t: "tr".into(), s: 2 }], envs: vec![e.clone()], ..Default::default() })
     .collect();
-  steps.push(Step::Block(BlockSpec { id: "hx1".into(), txs: txs2, cb: vec![OutSpec { v: SUBSIDY_UNITS, t: "tr".into(), s: 0 }] }));
+  steps.push(Step::Block(BlockSpec { id: "hx1".into(), txs: txs2, cb: vec![OutSpec { v: SUBSIDY_UNITS, t: "tr".into(), s: 0 }], ..Default::default() }));
   // a delegate of a delegate, and a reinscription on A's sat
   let mut third: Vec<(EnvSpec, Value)> = Vec::new();
   third.push((EnvSpec { nobody: true, delegate: Some("B".into()), ..env("E") }, cls("valid", "none", false, "delegating", false)));
@@ -64,7 +64,7 @@ pub fn content_scenario() -> (Scenario, Vec<(String, Value)>) {
     // reveal N on the output that holds A: same sat
     TxSpec { label: "hv1".into(), ins: vec!["ht0:0".into()], outs: vec![OutSpec { v: SUBSIDY_UNITS, t: "tr".into(), s: 3 }], envs: vec![third[1].0.clone()], ..Default::default() },
   ];
-  steps.push(Step::Block(BlockSpec { id: "hx2".into(), txs: txs3, cb: vec![OutSpec { v: SUBSIDY_UNITS, t: "tr".into(), s: 0 }] }));
+  steps.push(Step::Block(BlockSpec { id: "hx2".into(), txs: txs3, cb: vec![OutSpec { v: SUBSIDY_UNITS, t: "tr".into(), s: 0 }], ..Default::default() }));
   steps.push(Step::Update);
   let mut all: Vec<(String, Value)> = Vec::new();
   for (e, c) in classes.into_iter().chain(second).chain(third) {
@@ -232,7 +232,7 @@ fn explorer_scenario() -> Scenario {
   // a parent P, then 205 transactions each revealing a child of P on the same sat s
   let mut steps = Vec::new();
   for i in 0..6 {
-    steps.push(Step::Block(BlockSpec { id: format!("jb{i}"), txs: vec![], cb: vec![OutSpec { v: SUBSIDY_UNITS, t: "tr".into(), s: (i % 3) as u32 }] }));
+    steps.push(Step::Block(BlockSpec { id: format!("jb{i}"), txs: vec![], cb: vec![OutSpec { v: SUBSIDY_UNITS, t: "tr".into(), s: (i % 3) as u32 }], ..Default::default() }));
   }
   let p = EnvSpec { label: "JP".into(), input: 0, ..Default::default() };
   let x = EnvSpec { label: "JX0".into(), input: 0, ..Default::default() };
@@ -243,6 +243,7 @@ fn explorer_scenario() -> Scenario {
       TxSpec { label: "jx0".into(), ins: vec!["cjb1:0".into()], outs: vec![OutSpec { v: SUBSIDY_UNITS, t: "tr".into(), s: 2 }], envs: vec![x], ..Default::default() },
     ],
     cb: vec![OutSpec { v: SUBSIDY_UNITS, t: "tr".into(), s: 0 }],
+    ..Default::default()
   }));
   let mut prev_x = "jx0:0".to_string();
   let mut prev_p = "jp:0".to_string();
@@ -264,7 +265,7 @@ fn explorer_scenario() -> Scenario {
       prev_p = format!("{label}:1");
       k += 1;
     }
-    steps.push(Step::Block(BlockSpec { id: format!("jd{b}"), txs, cb: vec![OutSpec { v: SUBSIDY_UNITS, t: "tr".into(), s: 0 }] }));
+    steps.push(Step::Block(BlockSpec { id: format!("jd{b}"), txs, cb: vec![OutSpec { v: SUBSIDY_UNITS, t: "tr".into(), s: 0 }], ..Default::default() }));
   }
   // a second parent with exactly one full page (100) of children
   let q = EnvSpec { label: "JQ".into(), input: 0, ..Default::default() };
@@ -288,7 +289,7 @@ fn explorer_scenario() -> Scenario {
     prev_y = format!("{label}:0");
     prev_q = format!("{label}:1");
   }
-  steps.push(Step::Block(BlockSpec { id: "jf0".into(), txs, cb: vec![OutSpec { v: SUBSIDY_UNITS, t: "tr".into(), s: 0 }] }));
+  steps.push(Step::Block(BlockSpec { id: "jf0".into(), txs, cb: vec![OutSpec { v: SUBSIDY_UNITS, t: "tr".into(), s: 0 }], ..Default::default() }));
   // an inscription whose sat is paid as fee and not claimed by the coinbase: lost
   steps.push(Step::Block(BlockSpec {
     id: "je0".into(),
@@ -300,6 +301,7 @@ fn explorer_scenario() -> Scenario {
       ..Default::default()
     }],
     cb: vec![OutSpec { v: SUBSIDY_UNITS, t: "tr".into(), s: 0 }],
+    ..Default::default()
   }));
   steps.push(Step::Update);
   Scenario { name: "explorer".into(), chain: "regtest".into(), flags: vec!["sats".into(), "runes".into(), "addresses".into()], commit_interval: None, savepoint_interval: None, max_savepoints: None, steps }
